@@ -790,6 +790,7 @@ pub fn module_check(property: &str, p: &Placed, server: &mut Server, cwd: &std::
         "C03" | "C04" | "C11" => crate::e2x::export_module(p, server, cwd, property, ctx.seed, false),
         "C15" => crate::e2d::c15_module(p, server, cwd),
         "C14" => crate::e2p::c14_module(p, server, ctx.seed),
+        "C07" => crate::e2g::c07_module(p, server),
         "C01" => c01_module(p, server, if thorough { 256 } else { 64 }, ctx.seed),
         "C02" => c02_module(p, server, 48, if thorough { 96 } else { 32 }, ctx.seed),
         _ => inconclusive("no module check for this property"),
